@@ -157,6 +157,10 @@ func (*prop) Cases(seed int64, tier string) []core.Case {
 	add(space{Name: "d2w3", Paths: []string{"", "a.io/x"}, Idents: []string{"T"}, D: 2, W: 3}, 8)
 	// identifiers are Unicode letters and digits: multi-byte names at every position of an argument list
 	add(space{Name: "d1w3-unicode", Paths: []string{"", "a.io/x", target}, Idents: []string{"Größe", "名前", "T"}, D: 1, W: 3}, 4)
+	// import paths without a slash (time, context, sync): a reference none of whose paths has a slash is rewritten and
+	// registered like any other (seeded change C15-m: "no slash, nothing to rewrite" fast path)
+	add(space{Name: "d1w3-slashless", Paths: []string{"", "time", "context", target}, Idents: []string{"T", "List"}, D: 1, W: 3}, 4)
+	add(space{Name: "d2w2-slashless", Paths: []string{"time", "sync"}, Idents: []string{"T"}, D: 2, W: 2}, 2)
 	nrand, randN := 16, 4000
 	if tier == "thorough" {
 		add(space{Name: "d3w2", Paths: []string{"", "a.io/x"}, Idents: []string{"T"}, D: 3, W: 2}, 32)
@@ -398,7 +402,7 @@ func shrink(r *Ref, oracle string) *Ref {
 	return cur
 }
 
-var randPaths = []string{"", "", "a.io/x", "github.com/a/b/v2", "gopkg.in/yaml.v3", "github.com/json-iterator/go", target, "example.com/other/target", "k8s.io/api/core/v1"}
+var randPaths = []string{"", "", "a.io/x", "github.com/a/b/v2", "gopkg.in/yaml.v3", "github.com/json-iterator/go", target, "example.com/other/target", "k8s.io/api/core/v1", "time", "context", "sync"}
 var randIdents = []string{"T", "List", "Map", "x_1", "string", "int", "Pair", "Größe", "名前", "Δx", "Ünï_1"}
 
 func randTree(r *rand.Rand, depth, width int, top bool) *Ref {
